@@ -144,7 +144,15 @@ type Run struct {
 
 func (r *Run) AddViolation(f Finding) {
 	r.Res.NViolations++
-	if len(r.Res.Violations) < 200 {
+	// keep a bounded number of examples *per class*, so that many hits of a
+	// listed known finding can never crowd out a new kind of violation
+	n := 0
+	for _, v := range r.Res.Violations {
+		if v.Class == f.Class {
+			n++
+		}
+	}
+	if n < 12 && len(r.Res.Violations) < 2000 {
 		r.Res.Violations = append(r.Res.Violations, f)
 	}
 }
